@@ -177,9 +177,15 @@ func (k Keeper) cleanupTimedOutBatches(ctx sdk.Context) {
 
 func (k Keeper) cleanupTimeOutBridgeCall(ctx sdk.Context) {
 	externalBlockHeight := k.GetLastObservedBlockHeight(ctx).ExternalBlockHeight
+	// a bridge call whose result has been observed but whose claim is still waiting to be executed
+	// has already been run by the external chain: it is settled by that claim, never by timeout
+	pendingResults := k.pendingBridgeCallResults(ctx)
 	k.IterateOutgoingBridgeCalls(ctx, func(data *types.OutgoingBridgeCall) bool {
 		if data.Timeout > externalBlockHeight {
 			return true
+		}
+		if _, ok := pendingResults[data.Nonce]; ok {
+			return false
 		}
 		// 1. handler bridge call refund
 		k.HandleOutgoingBridgeCallRefund(ctx, data)
